@@ -49,9 +49,10 @@ Definition eres_eqb (a b : eres) : bool :=
   (c1 =? c2) && (s1 =? s2) && list_eqb pairN_eqb p1 p2.
 
 (** implementation's emissions, with the index of the frame that triggered each *)
-Definition emissions (c : dcase) : list (nat * N * list N) :=
+Definition emissions_of (res : list eres) : list (nat * N * list N) :=
   flat_map (fun '(k, (code, so, p)) => if code =? 1 then [(k, so, rle_expand p)] else [])
-           (combine (seq 0 (length (c_res c))) (c_res c)).
+           (combine (seq 0 (length res)) res).
+Definition emissions (c : dcase) : list (nat * N * list N) := emissions_of (c_res c).
 
 Definition parsed_inputs (c : dcase) : list (option (frame N)) :=
   map (fun i => parse_frame (input_bytes i)) (c_in c).
@@ -70,7 +71,13 @@ Definition verdict (c : dcase) : N :=
   let ident_bad := if honest then filter (fun '(k, so, p) => negb (sent_ok N.eqb sent so p)) ems else [] in
   let twice := if honest then filter (fun '(k, so, p) => twice_before ems k so) ems else [] in
   let twice_unknown := filter (fun '(k, so, p) => negb (known_dup_class frames so)) twice in
-  let unknown := panicked || negb (match prov_bad, ident_bad, twice_unknown with [], [], [] => true | _, _, _ => false end) in
+  (* liveness ("emitted whenever all its frames arrive before its slot is reclaimed"): with an
+     honest sender, a packet that the model -- slot selection and eviction of the OLDEST slot as
+     documented -- emits must be emitted by the implementation too (at some step) *)
+  let lost := if honest then
+      filter (fun '(k, so, p) => negb (existsb (fun '(_, so', _) => so' =? so) ems)) (emissions_of model)
+    else [] in
+  let unknown := panicked || negb (match prov_bad, ident_bad, twice_unknown, lost with [], [], [], [] => true | _, _, _, _ => false end) in
   let known := match twice with [] => false | _ => match twice_unknown with [] => true | _ => false end end in
   (if mismatch then 1 else 0) + (if unknown then 2 else 0) + (if known then 16 else 0).
 
